@@ -491,11 +491,17 @@ func (x *Exec) callContract(st *State, fi *FuncInfo, args []Val, pos token.Pos, 
 	x.callSeq++
 	// results and modified cells are deterministic (uninterpreted) functions of the callee's read footprint
 	fp := x.footprint(st, fi, args)
+	argStart := x.lastArgStart
+	var outs []*Term
 	ufn := "F!" + sanitize(key)
+	if x.lawMode {
+		ufn = "FL!" + sanitize(key) // law mode: the footprint includes buffer contents (different arity)
+	}
 	for ri, r := range regs {
 		if r.Const > 0 && !symbolicBase(r.Off) {
 			for k := range r.Sorts {
 				v := UF(fmt.Sprintf("%s!m%d_%d", ufn, ri+1, k), r.Sorts[k], fp...)
+				outs = append(outs, v)
 				x.storeHeapCell(st, BVAdd(r.Blk, BV(int64(r.Tags[k]), 32)), BVAdd(r.Off, BV(int64(r.Offs[k]), 64)), v)
 			}
 			continue
@@ -516,6 +522,7 @@ func (x *Exec) callContract(st *State, fi *FuncInfo, args []Val, pos token.Pos, 
 			ufarr := UF(fmt.Sprintf("%s!m%d_arr%d_%d", ufn, ri+1, srt.W, r.Tags[ci]), ArrS(BV64, srt), fp...)
 			ninner := Fresh(fmt.Sprintf("%s.m%d!arr", sanitize(key), ri+1), ArrS(BV64, srt))
 			x.assume(True(), Eq(ninner, ufarr))
+			outs = append(outs, ufarr)
 			o := Fresh("o", BV64)
 			in := And(ULE(r.Off, o), ULT(o, BVAdd(r.Off, r.N)))
 			ax := ForallPat([]*Term{o}, Implies(Not(in), Eq(Select(ninner, o), Select(inner, o))), []*Term{Select(ninner, o)})
@@ -533,7 +540,8 @@ func (x *Exec) callContract(st *State, fi *FuncInfo, args []Val, pos token.Pos, 
 		x.typeInv(st, resT, res.C)
 		res.C = x.normPtrs(st, resT, res.C)
 	}
-	x.calls = append(x.calls, &callRec{Key: key, FI: fi, Args: args, FP: fp, Res: res, Guard: st.G})
+	outs = append(outs, res.C...)
+	x.calls = append(x.calls, &callRec{Key: key, FI: fi, Args: args, FP: fp, ArgStart: argStart, Res: res, Outs: outs, Guard: st.G})
 	for k, g := range fi.Ens {
 		c := fi.C.Ensures[k]
 		if !x.tagOn(c.Tags) {
@@ -928,8 +936,18 @@ func (x *Exec) verifyFunc() (err error) {
 			panic(r)
 		}
 	}()
+	if x.lawMode {
+		x.proveLaws()
+		return nil
+	}
+	st, args := x.prologue()
+	x.unaryBody(st, args)
+	return nil
+}
+
+// prologue: symbolic arguments, type and alias assumptions, preconditions, old snapshots, modifies regions
+func (x *Exec) prologue() (*State, []Val) {
 	fi := x.Top
-	fn := fi.Fn
 	st := &State{G: True(), Loc: map[int][]*Term{}, Heap: map[*Sort]*Term{}}
 	x.runInit(st)
 	var args []Val
@@ -986,6 +1004,9 @@ func (x *Exec) verifyFunc() (err error) {
 	x.cover("requires/cover", st)
 	x.olds = x.snapshotOlds(fi, st, args)
 	for k, g := range fi.Split {
+		if x.lawMode {
+			break // laws are proved without case analysis
+		}
 		x.applySplitC(st, x.evalGen(g, st, x.genArgs(g, args, nil, nil, nil, st)).C[0], fi.C.Splits[k])
 	}
 	// modifies regions
@@ -1001,13 +1022,19 @@ func (x *Exec) verifyFunc() (err error) {
 		}
 		x.regions = append(x.regions, *r)
 	}
+	return st, args
+}
+
+func (x *Exec) unaryBody(st *State, args []Val) {
+	fi := x.Top
+	fn := fi.Fn
 	fr := &Frame{fn: fn, vals: map[ssa.Value]Val{}, allocs: map[*ssa.Alloc]int{}, args: args, top: true}
 	if fn.Parent() != nil && len(fn.FreeVars) > 0 {
 		x.fail("closure with free variables as a top-level function")
 	}
 	rets := x.runBody(fr, st)
 	if len(rets) == 0 {
-		return nil
+		return
 	}
 	check := func(rst *State, rv Val, pos token.Pos) {
 		for k, g := range fi.Ens {
@@ -1039,7 +1066,6 @@ func (x *Exec) verifyFunc() (err error) {
 		}
 		check(m, v, fn.Pos())
 	}
-	return nil
 }
 
 func isByteRegion(r Region) bool {
@@ -1047,12 +1073,14 @@ func isByteRegion(r Region) bool {
 }
 
 type callRec struct {
-	Key   string
-	FI    *FuncInfo
-	Args  []Val
-	FP    []*Term
-	Res   Val
-	Guard *Term
+	Key      string
+	FI       *FuncInfo
+	Args     []Val
+	FP       []*Term
+	ArgStart []int // position in FP of the first cell of every argument
+	Res      Val
+	Outs     []*Term // every output of the callee's summary: result cells, modified cells / arrays
+	Guard    *Term
 }
 
 // footprint: everything a callee can read through its arguments (two levels deep)
@@ -1132,7 +1160,9 @@ func (x *Exec) footprint(st *State, fi *FuncInfo, args []Val) []*Term {
 			rec(t, 0)
 		}
 	}
+	x.lastArgStart = nil
 	for i, a := range args {
+		x.lastArgStart = append(x.lastArgStart, len(out))
 		visit(fi.PTypes[i], a.C, 0)
 	}
 	return out
